@@ -123,12 +123,18 @@ func (m *RuleManager) loadRules() error {
 	if err != nil {
 		return err
 	}
+	saved := make(map[string]struct{}, len(toSave))
 	for _, s := range toSave {
 		if err = m.storage.SaveRule(s.StoreKey(), s); err != nil {
 			return err
 		}
+		saved[s.StoreKey()] = struct{}{}
 	}
 	for _, d := range toDelete {
+		if _, ok := saved[d]; ok {
+			// the key held a duplicate and now holds the restored rule.
+			continue
+		}
 		if err = m.storage.DeleteRule(d); err != nil {
 			return err
 		}
